@@ -3,7 +3,9 @@ use serde_json::{json, Map, Value};
 use std::collections::{BTreeMap, HashSet};
 use std::time::Instant;
 
-pub const VERIF_ROOT: &str = "/verif";
+pub fn verif_root() -> String {
+    std::env::var("VERIF_ROOT").unwrap_or_else(|_| "/verif".to_string())
+}
 
 #[derive(Clone, Debug)]
 pub struct Violation {
@@ -135,7 +137,7 @@ pub struct Known {
 }
 
 pub fn load_known() -> Vec<Known> {
-    let path = format!("{}/known_findings.json", VERIF_ROOT);
+    let path = format!("{}/known_findings.json", verif_root());
     let txt = match std::fs::read_to_string(&path) {
         Ok(t) => t,
         Err(_) => return vec![],
@@ -218,7 +220,7 @@ impl Report {
                 }
             }
         }
-        let rdir = format!("{}/replay/{}", VERIF_ROOT, self.id);
+        let rdir = format!("{}/replay/{}", verif_root(), self.id);
         let _ = std::fs::create_dir_all(&rdir);
         // stale replay files of earlier runs are removed so the directory reflects this run
         if let Ok(rd) = std::fs::read_dir(&rdir) {
@@ -302,7 +304,7 @@ impl Report {
             "wall_s": self.elapsed(),
             "violations": new_violations.len(),
         });
-        let edir = format!("{}/evidence", VERIF_ROOT);
+        let edir = format!("{}/evidence", verif_root());
         let _ = std::fs::create_dir_all(&edir);
         let epath = format!("{}/{}.json", edir, self.id);
         if let Err(e) = std::fs::write(&epath, serde_json::to_string_pretty(&ev).unwrap()) {
